@@ -48,8 +48,12 @@ class Table:
     conds: list of (pattern, replacement) giving a Gallina bool expression.
     """
 
-    def __init__(self, name, stmts, conds, final=None, skip_logger=True):
+    def __init__(self, name, stmts, conds, final=None, skip_logger=True, inline_db=False, cond_fn=None):
         self.name, self.stmts, self.conds, self.final, self.skip_logger = name, stmts, conds, final, skip_logger
+        # inline_db: an `async with self.db:` block is translated as its body (the transaction
+        # boundary is not part of the decision); cond_fn: structural translation of a condition,
+        # tried before the literal table (returns None when it does not apply).
+        self.inline_db, self.cond_fn = inline_db, cond_fn
 
     def _lookup(self, table, text, what):
         for pat, rep in table:
@@ -63,6 +67,10 @@ class Table:
         raise TranslatorError(f"{self.name}: unrecognised {what}: {text[:160]!r}")
 
     def cond(self, node):
+        if self.cond_fn is not None:
+            r = self.cond_fn(node)
+            if r is not None:
+                return r
         return self._lookup(self.conds, ast.unparse(node), "condition")
 
     def block(self, stmts, k):
@@ -78,6 +86,9 @@ class Table:
             kk = self.block(rest, k) if (rest or k is not None or self.final is not None) else None
             c = self.cond(s.test)
             return f"(if {c}\n then {self.block(s.body, kk)}\n else {self.block(s.orelse, kk)})"
+        if self.inline_db and isinstance(s, ast.AsyncWith) and len(s.items) == 1 \
+                and ast.unparse(s.items[0].context_expr) == "self.db" and s.items[0].optional_vars is None:
+            return self.block(list(s.body) + rest, k)
         text = ast.unparse(s)
         if self.skip_logger and isinstance(s, ast.Expr) and re.match(r"logger\.(debug|info|warning)\(", text):
             return self.block(rest, k)
@@ -831,6 +842,321 @@ def gen_executor(ev):
     return out
 
 
+# ---------------------------------------------------------------------------------------------
+# the CHECKING path: _get_next_step, the tail of _derive_job, job.py, try_skip_job,
+# validate_dynamic_job, _reset_step_to_pending, hash cancellation
+# ---------------------------------------------------------------------------------------------
+
+
+def _norm(node_or_text):
+    text = node_or_text if isinstance(node_or_text, str) else ast.unparse(node_or_text)
+    return re.sub(r"\s+", " ", text)
+
+
+def _expect_skeleton(where, fn, expect):
+    got = [_norm(s) for s in body_without_docstring(fn)]
+    exp = [_norm(e) for e in expect]
+    if got != exp:
+        for i, (g, e) in enumerate(zip(got + [""] * len(exp), exp + [""] * len(got))):
+            if g != e:
+                raise TranslatorError(f"{where}: statement {i} changed: {g[:200]!r} (expected {e[:200]!r})")
+
+
+def _bool_expr(where, atoms, compares=None):
+    """Structural translation of a condition: and / or / not over the atoms (by unparse text) and
+    over `A == B` / `A != B` between operand pairs listed in `compares` (frozenset of the two
+    operand texts -> Gallina bool that is true iff they are equal)."""
+    compares = compares or {}
+
+    def tr(node):
+        text = ast.unparse(node)
+        if text in atoms:
+            return atoms[text]
+        if isinstance(node, ast.BoolOp):
+            op = " && " if isinstance(node.op, ast.And) else " || "
+            return "(" + op.join(tr(v) for v in node.values) + ")"
+        if isinstance(node, ast.UnaryOp) and isinstance(node.op, ast.Not):
+            return f"(negb {tr(node.operand)})"
+        if isinstance(node, ast.Compare) and len(node.ops) == 1 and isinstance(node.ops[0], (ast.Eq, ast.NotEq)):
+            key = frozenset({ast.unparse(node.left), ast.unparse(node.comparators[0])})
+            if key in compares and len(key) == 2:
+                e = compares[key]
+                return e if isinstance(node.ops[0], ast.Eq) else f"(negb {e})"
+        raise TranslatorError(f"{where}: unrecognised condition: {text[:160]!r}")
+    return tr
+
+
+def gen_checking(ev):
+    out = []
+    S = ev["StepState"]
+    tree = parse_module(f"{CORE}/scheduler.py")
+
+    # --- _get_next_step: CHECKING iff the selected row has a stored hash
+    fn = find_function(tree, "_get_next_step", "Scheduler")
+    body = body_without_docstring(fn)
+    texts = [_norm(x) for x in body]
+    if len(texts) != 5 or texts[0] != "row = self.db.execute(SELECT_NEXT_STEP, (self.workflow.need_threshold.value,)).fetchone()" \
+            or texts[1] != "if row is None: return None" or texts[2] != "i, label, has_hash = row" \
+            or texts[4] != "return (Step(self.workflow, i, label), state)":
+        raise TranslatorError(f"_get_next_step: skeleton changed: {texts}")
+    m = re.fullmatch(r"state = StepState\.(\w+) if has_hash else StepState\.(\w+)", texts[3])
+    if not m:
+        raise TranslatorError(f"_get_next_step: state selection changed: {texts[3]}")
+    out.append("(* Scheduler._get_next_step: the state a dispatched step is moved to *)\n"
+               f"Definition get_next_step_state_gen (has_hash : bool) : N := if has_hash then {S[m.group(1)]} else {S[m.group(2)]}.")
+    import importlib
+    sched_mod = importlib.import_module("stepup.core.scheduler")
+    step_mod = importlib.import_module("stepup.core.step")
+    sel = _norm(sched_mod.SELECT_NEXT_STEP).strip()
+    if not sel.startswith("SELECT node.i, node.label, step._has_hash FROM step INDEXED BY step_dispatch"):
+        raise TranslatorError("SELECT_NEXT_STEP: select list changed")
+    trig = _norm(re.sub(r"--[^\n]*", " ", step_mod.STEP_SCHEMA))
+    for need in ("CREATE TRIGGER IF NOT EXISTS step_hash_ins AFTER INSERT ON step_hash BEGIN "
+                 "UPDATE step SET _has_hash = 1 WHERE node = NEW.node; END;",
+                 "CREATE TRIGGER IF NOT EXISTS step_hash_del AFTER DELETE ON step_hash BEGIN "
+                 "UPDATE step SET _has_hash = 0 WHERE node = OLD.node; END;"):
+        if need not in trig:
+            raise TranslatorError("STEP_SCHEMA: _has_hash is no longer the trigger-maintained mirror of step_hash")
+    stree = parse_module(f"{CORE}/step.py")
+    _expect_skeleton("Step.get_hash", find_function(stree, "get_hash", "Step"), [
+        "row = self.db.execute('SELECT hash FROM step_hash WHERE node = ?', (self.i,)).fetchone()",
+        "return None if row is None else StepHash.from_json(row[0])"])
+    _expect_skeleton("Step.set_hash", find_function(stree, "set_hash", "Step"), [
+        "self.db.execute('INSERT OR REPLACE INTO step_hash VALUES (?, ?)', (self.i, step_hash.to_json()))"])
+    _expect_skeleton("Step.delete_hash", find_function(stree, "delete_hash", "Step"), [
+        "self.db.execute('DELETE FROM step_hash WHERE node = ?', (self.i,))"])
+
+    # --- job.py: which coroutine a job runs
+    jtree = parse_module(f"{CORE}/job.py")
+    _expect_skeleton("RunJob.runs_command", find_function(jtree, "runs_command", "RunJob"),
+                     ["return self.step_hash is None"])
+    _expect_skeleton("RunJob.coro", find_function(jtree, "coro", "RunJob"), [
+        "if self.runs_command: inner = executor.execute_job(self.job_i, self.step, self.inp_hashes, self.env_deps) "
+        "else: inner = executor.try_skip_job(self.job_i, self.step, self.inp_hashes, self.env_deps, self.step_hash)",
+        "return _run_job_with_log(self.job_i, self.name, inner) if executor.write_joblog else inner"])
+    _expect_skeleton("ValidateDynamicJob.coro", find_function(jtree, "coro", "ValidateDynamicJob"), [
+        "inner = executor.validate_dynamic_job(self.job_i, self.step, self.inp_hashes, self.env_deps, self.step_hash)",
+        "return _run_job_with_log(self.job_i, self.name, inner) if executor.write_joblog else inner"])
+    _expect_skeleton("_run_job_with_log", find_function(jtree, "_run_job_with_log"), [
+        "append_joblog_record('STARTED', job_i, description)",
+        "try: return await coro finally: append_joblog_record('ENDED', job_i, description)"])
+
+    # --- tail of _derive_job: RunJob or ValidateDynamicJob
+    fn = find_function(tree, "_derive_job", "Scheduler")
+    body = body_without_docstring(fn)
+    loop = [x for x in body if isinstance(x, ast.For)][0]
+    tail = body[body.index(loop) + 1:]
+    ttexts = [_norm(x) for x in tail]
+    if len(tail) != 8 or ttexts[:5] != ["step_hash = step.get_hash()", "env_deps = list(step.env_deps())",
+                                        "self.job_counter += 1", "job_i = self.job_counter", "self.jobs[job_i] = step"] \
+            or ttexts[6:] != ["if self.write_joblog: append_joblog_record('CREATED', job_i, job.name)", "return job"] \
+            or not isinstance(tail[5], ast.If):
+        raise TranslatorError(f"_derive_job: statements after the loop changed: {ttexts}")
+    t = Table("_derive_job.tail", [
+        ("job = RunJob(step, inp_hashes, env_deps, step_hash, job_i=job_i)",
+         ("return", "(if negb has_hash then JK_execute else JK_try_skip)")),
+        ("job = ValidateDynamicJob(step, inp_hashes, env_deps, step_hash, job_i=job_i)", ("return", "JK_validate")),
+    ], [], cond_fn=_bool_expr("_derive_job.tail", {"dynamic_inputs_ready": "dynamic_inputs_ready",
+                                                    "step_hash is None": "(negb has_hash)",
+                                                    "step_hash is not None": "has_hash"}))
+    out.append("(* which coroutine the job derived by Scheduler._derive_job runs (job.py: RunJob.coro with\n"
+               "   runs_command = step_hash is None, ValidateDynamicJob.coro) *)\n"
+               "Inductive job_kind := JK_execute | JK_try_skip | JK_validate.\n"
+               "Definition derive_job_kind_gen (dynamic_inputs_ready has_hash : bool) : job_kind :=\n  "
+               + t.block([tail[5]], None) + ".")
+
+    # --- executor.py
+    etree = parse_module(f"{CORE}/executor.py")
+
+    def set_state_rep(prefix):
+        def rep(m):
+            d = {"None": "false", "False": "false", "True": "true"}[str(m.group("d"))]
+            return f"let {prefix}state_set := true in let {prefix}state := {S[m.group('s')]} in let {prefix}deferred := {d} in"
+        return rep
+    SET_STATE = R(r"step\.set_state\(StepState\.(?P<s>\w+)(?:, (?:deferred=)?(?P<d>True|False))?\)")
+
+    # _reset_step_to_pending
+    fn = find_function(etree, "_reset_step_to_pending", "Executor")
+    if [a.arg for a in fn.args.args] != ["self", "step"]:
+        raise TranslatorError("_reset_step_to_pending signature changed")
+    t = Table("_reset_step_to_pending", [
+        ("step.reset_for_rerun()", "let dyn_dropped := true in"),
+        ("step.delete_hash()", "let hash_deleted := true in"),
+        (SET_STATE, set_state_rep("")),
+    ], [], final="(dyn_dropped, hash_deleted, state_set, state, deferred)", inline_db=True)
+    out.append("(* Executor._reset_step_to_pending: (reset_for_rerun called, hash deleted, set_state called, state, deferred) *)\n"
+               "Definition reset_to_pending_gen : bool * bool * bool * N * bool :=\n"
+               "  let dyn_dropped := false in let hash_deleted := false in let state_set := false in\n"
+               "  let state := 0 in let deferred := false in\n  "
+               + t.block(body_without_docstring(fn), None) + ".")
+
+    digests = {frozenset({"step_hash.inp_digest", "new_hash.inp_digest"}): "inp_equal"}
+    digests2 = dict(digests)
+    digests2[frozenset({"step_hash.out_digest", "new_hash.out_digest"})] = "out_equal"
+
+    # validate_dynamic_job
+    fn = find_function(etree, "validate_dynamic_job", "Executor")
+    if [a.arg for a in fn.args.args] != ["self", "job_i", "step", "inp_hashes", "env_deps", "step_hash"]:
+        raise TranslatorError("validate_dynamic_job signature changed")
+    VRET = "(reset, state_set, state, deferred)"
+    t = Table("validate_dynamic_job", [
+        ("run, new_hash = await self._new_run(job_i, step, inp_hashes, env_deps)", ""),
+        ("return", ("return", VRET)),
+        ("await self._outdated_dynamic(run, step_hash, new_hash)", ""),
+        ("await self._reset_step_to_pending(step)", "let reset := true in"),
+        (SET_STATE, set_state_rep("")),
+        ("self._report_step_counts()", ""),
+    ], [], final=VRET, inline_db=True,
+        cond_fn=_bool_expr("validate_dynamic_job", {"new_hash is None": "(negb new_run_ok)",
+                                                      "new_hash is not None": "new_run_ok"}, digests))
+    out.append("(* Executor.validate_dynamic_job after _new_run: (reset to pending, set_state called, state, deferred).\n"
+               "   Any statement outside the table (mark_completed, _run_command, record_run_started, ...) is a\n"
+               "   TranslatorError. *)\n"
+               "Definition validate_gen (new_run_ok inp_equal : bool) : bool * bool * N * bool :=\n"
+               "  let reset := false in let state_set := false in let state := 0 in let deferred := false in\n  "
+               + t.block(body_without_docstring(fn), None) + ".")
+
+    # try_skip_job, split at the output hashing (an await during which other actors run)
+    fn = find_function(etree, "try_skip_job", "Executor")
+    if [a.arg for a in fn.args.args] != ["self", "job_i", "step", "inp_hashes", "env_deps", "step_hash"]:
+        raise TranslatorError("try_skip_job signature changed")
+    body = body_without_docstring(fn)
+    texts = [_norm(x) for x in body]
+    SPLIT = "new_hash, new_out_hashes = await self._compute_out_step_hash(run, new_hash)"
+    if texts.count(SPLIT) != 1 or texts[0] != "run, new_hash = await self._new_run(job_i, step, inp_hashes, env_deps)":
+        raise TranslatorError("try_skip_job: _new_run / _compute_out_step_hash calls not found at top level")
+    k = texts.index(SPLIT)
+    for x in body[:k]:
+        if SPLIT in _norm(x) and x is not body[k]:
+            raise TranslatorError("try_skip_job: output hashing inside a branch")
+    P1RET = "(returned, reset)"
+    t = Table("try_skip_job.phase1", [
+        ("run, new_hash = await self._new_run(job_i, step, inp_hashes, env_deps)", ""),
+        ("return", ("return", "(true, reset)")),
+        ("await self._noskip(run, step_hash, new_hash)", ""),
+        ("await self._reset_step_to_pending(step)", "let reset := true in"),
+    ], [], final="(false, reset)", inline_db=True,
+        cond_fn=_bool_expr("try_skip_job.phase1", {"new_hash is None": "(negb new_run_ok)",
+                                                     "new_hash is not None": "new_run_ok"}, digests))
+    out.append("(* Executor.try_skip_job from _new_run up to the output hashing: (returned, reset to pending);\n"
+               "   (false, false) = goes on to hash the outputs *)\n"
+               "Definition try_skip_phase1_gen (new_run_ok inp_equal : bool) : bool * bool :=\n"
+               "  let reset := false in\n  " + t.block(body[:k], None) + ".")
+    P2RET = "(finalized_failed, reset, outs_recorded_succeeded, completed)"
+
+    def completed(m):
+        if m.group("h") != "new_hash" or m.group("d") != "False":
+            raise TranslatorError("try_skip_job: mark_completed is not called with (new_hash, False)")
+        return "let completed := true in"
+    t = Table("try_skip_job.phase2", [
+        ("return", ("return", P2RET)),
+        ("await self._finalize_failed_run(run)", "let finalized_failed := true in"),
+        ("await self._noskip(run, step_hash, new_hash)", ""),
+        ("await self._reset_step_to_pending(step)", "let reset := true in"),
+        ("await self._skip(run, step_hash)", ""),
+        ("self.workflow.update_file_hashes(new_out_hashes, cause=HashUpdateCause.SUCCEEDED)",
+         "let outs_recorded_succeeded := true in"),
+        (R(r"step\.mark_completed\((?P<h>\w+), (?P<d>\w+)\)"), completed),
+        ("self._report_step_counts()", ""),
+    ], [], final=P2RET, inline_db=True,
+        cond_fn=_bool_expr("try_skip_job.phase2", {"new_hash is None": "(negb out_hash_ok)",
+                                                     "new_hash is not None": "out_hash_ok"}, digests2))
+    out.append("(* Executor.try_skip_job after the output hashing: (_finalize_failed_run called, reset to pending,\n"
+               "   update_file_hashes(new_out_hashes, SUCCEEDED) called, mark_completed(new_hash, False) called) *)\n"
+               "Definition try_skip_phase2_gen (out_hash_ok inp_equal out_equal : bool) : bool * bool * bool * bool :=\n"
+               "  let finalized_failed := false in let reset := false in let outs_recorded_succeeded := false in\n"
+               "  let completed := false in\n  " + t.block(body[k + 1:], None) + ".")
+    # record_run_started / _run_command are called by execute_job only
+    for name in ("validate_dynamic_job", "try_skip_job"):
+        txt = ast.unparse(find_function(etree, name, "Executor"))
+        for bad in ("record_run_started", "_run_command", "launch_command", "record_run_stopped"):
+            if bad in txt:
+                raise TranslatorError(f"{name}: mentions {bad}")
+
+    # hash cancellation and the output hashing
+    _expect_skeleton("Executor._run_work_thread", find_function(etree, "_run_work_thread", "Executor"), [
+        "with self._track_running(run): worker = ThreadWorker(work=work, job_i=run.job_i) run.worker = worker "
+        "try: return await worker.run_in_thread() except HashCancelledError: self._fail_run_with_message(run, "
+        "'Hash computation was cancelled because the build is shutting down.') return None "
+        "except Exception as exc: self._fail_run_with_message(run, f'Hash computation failed: {exc}') return None "
+        "finally: run.worker = None"])
+    f = find_function(etree, "_fail_run_with_message", "Executor")
+    if _norm(body_without_docstring(f)[0]) != "run.success = False":
+        raise TranslatorError("_fail_run_with_message no longer starts with run.success = False")
+    _expect_skeleton("Executor._compute_out_step_hash", find_function(etree, "_compute_out_step_hash", "Executor"), [
+        "async with self.db: out_hashes = {rec.path: rec.hash for rec in run.step.out_paths()}",
+        "result = await self._run_work_thread(run, functools.partial(compute_out_hashes, out_hashes))",
+        "if result is None: return (None, {})",
+        "if len(result.messages) > 0: run.out_missing.extend(result.messages) run.success = False",
+        "step_hash = step_hash.with_out_hashes(result.all_hashes)",
+        "return (step_hash, result.new_hashes)"])
+    txt = _norm(find_function(etree, "_compute_inp_step_hash", "Executor"))
+    for need in ("if result is None: return (None, {})",
+                 "step_hash = StepHash.from_inp(run.step.label, result.all_hashes, {name: self.base_env.get(name) "
+                 "for name in env_deps}, explained=self.explain_rerun, shell=shell, env_overrides=env_overrides)",
+                 "return (step_hash, {})"):
+        if need not in txt:
+            raise TranslatorError(f"_compute_inp_step_hash: expected fragment missing: {need[:60]}")
+    txt = _norm(find_function(etree, "_compute_full_step_hash", "Executor"))
+    for need in ("if result is None: return (None, {}, {})",
+                 "step_hash = StepHash.from_inp(run.step.label, inp_result.all_hashes, {name: self.base_env.get(name) "
+                 "for name in env_deps}, explained=self.explain_rerun, shell=shell, env_overrides=env_overrides) "
+                 "step_hash = step_hash.with_out_hashes(out_result.all_hashes)",
+                 "out_hashes = {rec.path: rec.hash for rec in run.step.out_paths()}",
+                 "if len(out_result.messages) > 0: run.out_missing.extend(out_result.messages) run.success = False"):
+        if need not in txt:
+            raise TranslatorError(f"_compute_full_step_hash: expected fragment missing: {need[:60]}")
+    out.append("Definition hash_cancel_returns_none_and_fails_run : bool := true.")
+    # the reporting helpers only report
+    for name in ("_skip", "_noskip", "_outdated_dynamic"):
+        f = find_function(etree, name, "Executor")
+        for node in ast.walk(f):
+            if isinstance(node, ast.Call):
+                callee = ast.unparse(node.func)
+                if callee not in ("self.reporter", "compare_step_hashes", "len", "pages.append", "'\\n'.join", "AssertionError"):
+                    raise TranslatorError(f"Executor.{name} calls {callee}: not a pure reporting helper any more")
+            if isinstance(node, (ast.Assign, ast.AugAssign)):
+                for tg in (node.targets if isinstance(node, ast.Assign) else [node.target]):
+                    if "." in ast.unparse(tg):
+                        raise TranslatorError(f"Executor.{name} assigns to {ast.unparse(tg)}")
+
+    # hash.py: the ingredient lists of the two digests (C13 proves that equal digests have equal lists)
+    htree = parse_module(f"{CORE}/hash.py")
+    _expect_skeleton("hash._update_file_hashes", find_function(htree, "_update_file_hashes"), [
+        "for path in sorted(file_hashes): file_hash = file_hashes[path] hw.update(path) "
+        "hw.update(file_hash.mode.to_bytes(8)) hw.update(file_hash.size.to_bytes(8)) hw.update(file_hash.digest)"])
+    _expect_skeleton("StepHash.from_inp", find_function(htree, "from_inp", "StepHash"), [
+        "env_overrides = {} if env_overrides is None else env_overrides", "hw = HashWords()", "hw.update(step_label)",
+        "hw.update('__shell__')", "hw.update(bytes([int(shell)]))", "hw.update('__inp_paths__')",
+        "_update_file_hashes(hw, inp_hashes)", "hw.update('__env_vars__')",
+        "for env_var, value in sorted(env_values.items()): hw.update(env_var) hw.update(value)",
+        "hw.update(b'__env_overrides__' if env_overrides else '__env_overrides__')",
+        "for name, value in sorted(env_overrides.items()): hw.update(name) hw.update(value)",
+        "inp_info = InpInfo(dict(inp_hashes), dict(env_values), dict(env_overrides)) if explained else None",
+        "return cls(hw.digest(), inp_info)"])
+    _expect_skeleton("StepHash.with_out_hashes", find_function(htree, "with_out_hashes", "StepHash"), [
+        "hw = HashWords()", "_update_file_hashes(hw, out_hashes)",
+        "out_info = OutInfo(dict(out_hashes)) if self.inp_info is not None else None",
+        "return self.__class__(self.inp_digest, self.inp_info, hw.digest(), out_info)"])
+    _expect_skeleton("hash.compute_out_hashes", find_function(htree, "compute_out_hashes"), [
+        "messages = []", "new_out_hashes = {}", "all_out_hashes = {}",
+        "for path in sorted(out_hashes): old_file_hash = out_hashes[path] "
+        "new_file_hash = old_file_hash.refreshed(path, cancel_event) all_out_hashes[path] = new_file_hash "
+        "if new_file_hash != old_file_hash: new_out_hashes[path] = new_file_hash "
+        "if new_file_hash.is_unknown: messages.append(path)",
+        "return HashComputeResult(messages, new_out_hashes, all_out_hashes)"])
+    out.append("Definition step_hash_ingredients_as_reviewed : bool := true.")
+
+    # Workflow.mark_step_pending ignores RUNNING and CHECKING steps (c's row is observed, this is
+    # recorded for the design notes only)
+    wtree = parse_module(f"{CORE}/workflow.py")
+    f = find_function(wtree, "mark_step_pending", "Workflow")
+    b = [_norm(x) for x in body_without_docstring(f)]
+    ignores = "if state in (StepState.RUNNING, StepState.CHECKING): return" in b
+    out.append(f"Definition mark_step_pending_ignores_checking : bool := {'true' if ignores else 'false'}.")
+    return out
+
+
 def _unknown_tag(t):
     raise TranslatorError(f"_determine_tag: unknown tag {t}")
 
@@ -862,6 +1188,7 @@ def generate():
     lines += ["(* workflow.py *)"] + gen_workflow(ev) + [""]
     lines += ["(* director.py *)"] + gen_director(ev) + [""]
     lines += ["(* executor.py, hash.py *)"] + gen_executor(ev) + [""]
+    lines += ["(* the CHECKING path: scheduler.py, job.py, executor.py, hash.py *)"] + gen_checking(ev) + [""]
     from stepup.core.workflow import Workflow
     import attrs as _attrs
     cap = [a.default for a in _attrs.fields(Workflow) if a.name == "defer_cap"]
